@@ -28,6 +28,7 @@ type rxPlainEnv struct {
 	sizes  []int
 	eps    []conn.Endpoint
 	dead   bool
+	rxErr  string // the receive function failed by itself
 	id     int
 }
 
@@ -112,6 +113,12 @@ func (e *rxPlainEnv) recv() (items []rxItem, ok bool) {
 	}()
 	n, err := e.fn(e.bufs, e.sizes, e.eps)
 	close(done)
+	if err != nil && !e.dead {
+		e.rxErr = err.Error()
+		e.dead = true
+		e.b.Close()
+		return nil, false
+	}
 	if err != nil || e.dead {
 		e.dead = true
 		return nil, false
@@ -246,6 +253,12 @@ func rxPlainFam(fam string, bursts [][2][]int) *lbFam {
 	fr := &lbFam{Failures: []lbFailure{}}
 	for _, lb := range bursts {
 		fail, lossy := e.runRxPlain(lb[0], lb[1])
+		if lossy && e.rxErr != "" {
+			fr.Batches++
+			fr.Failures = append(fr.Failures, lbFailure{Family: fam, Pass: "rxplain", Sizes: lb[1], Caps: []int{}, GotSizes: []int{},
+				Error: "the receive function returned an error with datagrams waiting: " + e.rxErr, Script: []lbStep{{0, lb[0]}, {1, lb[1]}}})
+			return fr
+		}
 		if lossy {
 			if e.dead {
 				if fr.Batches == 0 {
